@@ -53,7 +53,13 @@ type TrackSetController struct {
 	selector TrackNoSelector
 }
 
+// MaxTrackNum is the largest track count a Standard MIDI File header can declare.
+const MaxTrackNum = 65535
+
 func NewTrackSetControllerFromTrackNum(trackNum int) (*TrackSetController, error) {
+	if trackNum > MaxTrackNum {
+		return nil, errorx.Invalid("trackNum %d exceeds %d", trackNum, MaxTrackNum)
+	}
 	selector, err := NewTrackNoSelector(trackNum)
 	if err != nil {
 		return nil, err
